@@ -279,6 +279,22 @@ def run(chk):
         cd = describe(prog, b, t["args"][1])
         if cd[0] == "closure" and cd[1] in prog.bodies and prog.bodies[cd[1]].calls_to(r"WebsocketStream::send_raw$"):
             bc_cl.append((blk, t, prog.bodies[cd[1]]))
+    # a failed write to one client does not end the broadcast for the others: the send is not inside a short-circuiting adaptor
+    # (`values_mut().try_for_each(|s| s.send_raw(..)).ok()` stops at the first stream whose socket is gone; hash order decides who is behind it)
+    sc = []
+    for blk, t in b.calls_to(r"Iterator::(try_for_each|try_fold|all|any|find|find_map|position|map_while|take_while|skip_while)$"):
+        for a_ in t["args"][1:]:
+            cd = describe(prog, b, a_)
+            if cd[0] == "closure" and cd[1] in prog.bodies:
+                fam_ = [prog.bodies[cd[1]]] + prog.all_closures_of(cd[1])
+                if any(x.calls_to(r"WebsocketStream::(send_raw|send)$") for x in fam_):
+                    sc.append((blk, t))
+    for blk, t in sc:
+        chk.ob("R4.broadcast", fn, "broadcast: a failed send to one stream does not stop the sends to the others", False,
+               f"the send sits in the closure of {core.short(t['callee'])}, which stops at the first error / false: clients later in the table's iteration order miss the broadcast "
+               "whenever one stream's socket has gone away", where=b.where(blk))
+    if sc:
+        bc_cl += [(blk, t, prog.bodies[describe(prog, b, t["args"][1])[1]]) for blk, t in sc if describe(prog, b, t["args"][1])[0] == "closure"]
     chk.floor("broadcast send site", len(bc) + len(bc_cl), 1)
     for blk, t, cb in bc_cl:
         recv_d = describe(prog, b, t["args"][0])
